@@ -659,7 +659,9 @@ func ruleSelInsert(r *Run) {
 		return
 	}
 	n := 0
-	for _, fn := range allFuncsDeep(top) {
+	// setRules, its closures and the module functions it calls statically (the insertion may be a recursive
+	// closure or a recursive method)
+	for _, fn := range p.staticReach(top) {
 		for _, w := range e.AllWrites(fn) {
 			if w.Target() != "ruleSelector.rules" || w.Kind != "append" {
 				continue
@@ -669,15 +671,15 @@ func ruleSelInsert(r *Run) {
 			// dominated by tag == "*" or tag == "" where tag is the first result of strings.Cut(selector, ".")
 			good := false
 			for _, g := range guardsOf(w.Instr.Block()) {
-				bo, ok := g.Cond.(*ssa.BinOp)
-				if !ok || bo.Op != token.EQL || !g.True {
+				x, y, op, ok := g.cmp()
+				if !ok || op != token.EQL {
 					continue
 				}
-				s, isC := constString(bo.Y)
+				s, isC := constString(y)
 				if !isC || (s != "*" && s != "") {
 					continue
 				}
-				if ex, ok := bo.X.(*ssa.Extract); ok && ex.Index == 0 {
+				if ex, ok := x.(*ssa.Extract); ok && ex.Index == 0 {
 					if c, ok := ex.Tuple.(*ssa.Call); ok && calleeName(c) == "strings.Cut" {
 						good = true
 					}
